@@ -2,6 +2,7 @@ package props
 
 import (
 	"fmt"
+	"sort"
 	"strings"
 
 	"github.com/freeconf/yang/node"
@@ -44,7 +45,7 @@ func c17LookupCases(tier string) int {
 	if tier == "thorough" {
 		n = 6 * n // other PRNG draws: list representations, present/absent split
 	}
-	return n + len(c17exoticKinds)*2 + len(c17builtOpts)
+	return n + len(c17exoticKinds)*2 + len(c17builtOpts) + len(c17userMaps)*2
 }
 
 // lists the library itself builds (an edit into an empty Go map creates the map that holds the list) under the options that change how
@@ -227,6 +228,102 @@ var c17exoticKinds = []struct {
 	{"union", "union { type int32; type string; }", []interface{}{5, "x", -1, "5x", "10", 7, "y", 50}, []string{"5", "x", "-1", "5x", "10", "7", "y", "50"}},
 }
 
+// lists kept in Go maps the user made, whose key type is another number kind than the Go value of the key leaf (a decimal64 leaf in a
+// map[int]T, an int64 leaf in a map[float64]T, an int16 leaf in a map[uint16]T): a requested key the map's key type cannot represent
+// equals no entry - the lookup finds nothing, or refuses the key - whatever entry the converted number would land on.
+var c17userMaps = []struct {
+	name, typ string
+	data      func() interface{}
+	present   map[string]string // path key -> payload
+	absent    []string
+}{
+	{"decimal64-in-map[int]", "decimal64 { fraction-digits 2; }", func() interface{} {
+		return map[int]interface{}{1: map[string]interface{}{"k": 1.0, "payload": "one"}, 7: map[string]interface{}{"k": 7.0, "payload": "seven"}, -3: map[string]interface{}{"k": -3.0, "payload": "minus-three"}}
+	}, map[string]string{"1": "one", "7": "seven", "-3": "minus-three", "1.00": "one"}, []string{"1.5", "1.50", "7.9", "-3.01", "0.99", "2", "-2.5"}},
+	{"decimal64-in-map[uint64]", "decimal64 { fraction-digits 1; }", func() interface{} {
+		return map[uint64]interface{}{0: map[string]interface{}{"k": 0.0, "payload": "zero"}, 7: map[string]interface{}{"k": 7.0, "payload": "seven"}}
+	}, map[string]string{"0": "zero", "7": "seven"}, []string{"7.9", "0.5", "-1", "-0.1", "6"}},
+	{"int64-in-map[float64]", "int64", func() interface{} {
+		return map[float64]interface{}{9007199254740992: map[string]interface{}{"k": int64(9007199254740992), "payload": "big"}, 5: map[string]interface{}{"k": int64(5), "payload": "five"}}
+	}, map[string]string{"9007199254740992": "big", "5": "five"}, []string{"9007199254740993", "6", "-5"}},
+	{"int16-in-map[uint16]", "int16", func() interface{} {
+		return map[uint16]interface{}{65535: map[string]interface{}{"k": int16(-1), "payload": "top"}, 3: map[string]interface{}{"k": int16(3), "payload": "three"}}
+	}, map[string]string{"3": "three"}, []string{"-1", "-2", "4"}},
+	{"uint64-in-map[int64]", "uint64", func() interface{} {
+		return map[int64]interface{}{-1: map[string]interface{}{"k": uint64(1), "payload": "minus"}, 9: map[string]interface{}{"k": uint64(9), "payload": "nine"}}
+	}, map[string]string{"9": "nine"}, []string{"18446744073709551615", "10", "0"}},
+	{"int32-in-map[int8]", "int32", func() interface{} {
+		return map[int8]interface{}{44: map[string]interface{}{"k": int32(44), "payload": "forty-four"}, -128: map[string]interface{}{"k": int32(-128), "payload": "low"}}
+	}, map[string]string{"44": "forty-four", "-128": "low"}, []string{"300", "128", "-129", "65580"}},
+}
+
+func c17UserMap(c *core.Ctx, k int) {
+	um := c17userMaps[k/2]
+	api := []string{"reflect", "node"}[k%2]
+	yang := fmt.Sprintf("module m { namespace \"urn:m\"; prefix m; revision 2020-01-01; list l { key k; leaf k { type %s } leaf payload { type string; } } }", strings.TrimSuffix(um.typ, ";")+func() string {
+		if strings.HasSuffix(um.typ, "}") {
+			return ""
+		}
+		return ";"
+	}())
+	m, err := parser.LoadModuleFromString(nil, yang)
+	if err != nil {
+		c.R.Inconclusive = "lookup schema does not load: " + head(err.Error(), 200)
+		return
+	}
+	data := map[string]interface{}{"l": um.data()}
+	var n node.Node
+	if api == "reflect" {
+		n = nodeutil.ReflectChild(data)
+	} else {
+		n = &nodeutil.Node{Object: data}
+	}
+	b := node.NewBrowser(m, n)
+	tag := fmt.Sprintf("%s-map/user-map/%s", api, um.name)
+	c.SetSample(map[string]interface{}{"store": api, "map": um.name, "present": um.present, "absent": um.absent})
+	var pres []string
+	for pk := range um.present {
+		pres = append(pres, pk)
+	}
+	sort.Strings(pres)
+	ask := func(pk string) (*node.Selection, error, bool) {
+		var sel *node.Selection
+		var ferr error
+		if c.Guard("Find l="+pk, func() { sel, ferr = b.Root().Find("l=" + pk) }) {
+			return nil, nil, true
+		}
+		return sel, ferr, false
+	}
+	for _, pk := range pres {
+		c.Eval()
+		c.Shape("%s/present", tag)
+		sel, ferr, bad := ask(pk)
+		if bad {
+			continue
+		}
+		if ferr != nil || sel == nil {
+			c.Violate("lookup-missed/"+tag, "Find(%q) selected nothing (%v) although the %T holds that entry", "l="+pk, ferr, data["l"])
+			continue
+		}
+		v, _ := sel.GetValue("payload")
+		if v == nil || v.String() != um.present[pk] {
+			c.Violate("lookup-wrong-entry/"+tag, "Find(%q) selected the entry with payload %v, want %q", "l="+pk, v, um.present[pk])
+		}
+	}
+	for _, pk := range um.absent {
+		c.Eval()
+		c.Shape("%s/absent", tag)
+		sel, ferr, bad := ask(pk)
+		if bad {
+			continue
+		}
+		if ferr == nil && sel != nil {
+			v, _ := sel.GetValue("payload")
+			c.Violate("lookup-found-absent/"+tag, "Find(%q) selected the entry with payload %v: no entry of the %T has a key equal to %s", "l="+pk, v, data["l"], pk)
+		}
+	}
+}
+
 func c17Exotic(c *core.Ctx, k int) {
 	kind := c17exoticKinds[k/2]
 	api := []string{"reflect", "node"}[k%2]
@@ -300,11 +397,16 @@ func c17Exotic(c *core.Ctx, k int) {
 }
 
 func c17Lookup(c *core.Ctx, k int) {
-	if base := c17LookupCases(c.Tier) - len(c17builtOpts); k >= base {
+	um := len(c17userMaps) * 2
+	if base := c17LookupCases(c.Tier) - um; k >= base {
+		c17UserMap(c, k-base)
+		return
+	}
+	if base := c17LookupCases(c.Tier) - um - len(c17builtOpts); k >= base {
 		c17Built(c, k-base)
 		return
 	}
-	if base := c17LookupCases(c.Tier) - len(c17builtOpts) - len(c17exoticKinds)*2; k >= base {
+	if base := c17LookupCases(c.Tier) - um - len(c17builtOpts) - len(c17exoticKinds)*2; k >= base {
 		c17Exotic(c, k-base)
 		return
 	}
